@@ -12,7 +12,7 @@ import os, json, tempfile, shutil
 from framework import coq_bs, coq_z
 
 ID = 'C14'
-COQ_IMPORTS = ['C14_Model']
+COQ_IMPORTS = ['C14_Model', 'C14_Text']
 GENERATORS = ['gen_codes', 'gen_flags', 'gen_sjson']
 STRANDS = '+-.?'
 RULE = ('object graphs built from an abstract tree: (x) the exhaustive box of all 4 strands x 256 defect sets on a two-location feature '
@@ -65,9 +65,21 @@ LEVEL_TEXT = ('Machine-checked Coq theorems over all object graphs of the domain
               'keyword, nested containers) is tied to sugar by differential testing through the real write()/read()/tofmtstr()/fromfmtstr() incl. the '
               'JSON text layer on every run (exhaustive strand x defect box, random graphs through 12 transports incl. glob patterns and archives, state histories on shared and '
               'edited objects, hand-written trees with exception classes), and its constants (class tuple, vars() of each class, constructor '
-              'signatures, sniffer constants, module globals) are regenerated from /repo and pinned.')
+              'signatures, sniffer constants, module globals) are regenerated from /repo and pinned. '
+              'JSON TEXT LAYER (round 7): a Gallina printer of the exact bytes json.dump writes with sugar\'s settings (ensure_ascii escapes, ", " and ": " '
+              'separators, NaN/Infinity/-Infinity, ints of any size, floats as the literal float.__repr__ produced) and a Gallina scanner of json.load '
+              '(white space, all escapes, NUMBER_RE, strict control characters, Extra data) with, for EVERY tree, parse(print t ++ rest) = (t, rest) '
+              '(C14_text_roundtrip, unbounded, nested induction; C14_loads_dumps; the text length is enough fuel), print injective (True / 1 / 1.0 / '
+              '"1" never confused: C14_print_injective), string literals scanned back and printable ASCII (C14_jstring_roundtrip), and THE ROUND TRIP '
+              'RESTATED AT BYTE LEVEL: read_bytes(write_bytes b) = strip b and the public graph is equal through sugar.read (C14_bytes_roundtrip). '
+              'Values json.dump accepts although they are not JSON (tuples, dict keys that are int/float/bool/None): loads(dumps v) = v exactly for the '
+              'values without tuples whose keys are all str (C14_native_roundtrip_iff), a non-str key always comes back as a different (str) key and '
+              'distinct keys collide (C14_nonstr_keys_outside) -- so they are OUTSIDE the domain. The printer is compared byte for byte with the text '
+              'sugar really writes on every generated basket, the scanner with json.loads on default / compact / indented / raw / padded / mutated / '
+              'hand-written invalid texts (tree, scalar kinds, float literals, ValueError), the tuple/key coercion with json and through sugar.')
 LEVEL_NOTE = ('Trusted: Coq kernel/vm_compute, tools/gen_data.py + tools/gens/c14.py (constants), the correspondence harness, CPython json/kwargs/enum. '
-              'Modelled rather than verified: sjson.py and the constructors listed in trusted_base. Tested only (not proved): the JSON text layer and '
+              'Modelled rather than verified: sjson.py, the constructors listed in trusted_base and CPython json (encoder/scanner, model/C14_Text.v; the '
+              'digits of a float literal are decided by CPython and opaque, code points beyond Latin-1 are outside the model str). Tested only (not proved): '
               'the transports/encodings (strings beyond Latin-1 incl. astral characters and lone surrogates are exercised through every transport by a '
               'relational check without the model), float repr round trip, state independence (histories). Domain restrictions (see assumptions): '
               "F20 key names; '_cls' inside plain dicts; lower-case residues. Fixed findings: F21, reserved_meta_keys (056e094). PENDING FIX "
@@ -174,9 +186,15 @@ def model_term(case):
             check_jshape(case['j'])
             assert isinstance(case.get('read', False), bool)
             return 'out (run_C14_json %s %s)' % ('true' if case.get('read') else 'false', jterm(case['j']))
+        if case.get('kind') == 'loads':
+            assert isinstance(case['s'], str) and all(ord(c) < 256 for c in case['s'])
+            return 'out (run_C14_loads %s)' % coq_bs(case['s'])
+        if case.get('kind') == 'native':
+            check_pshape(case['v'])
+            return 'out (run_C14_native %s)' % pterm(case['v'])
         check_shape(case['b'], 'BioBasket')
         assert case.get('via', 'file') in VIAS
-        return 'out (run_C14 %s)' % term(case['b'])
+        return 'out (run_C14_text %s)' % term(case['b'])          # [domain; written bytes; what reading them gives]
     except Exception:                       # malformed candidate produced by the generic shrinker
         return 'out (VL [VB false; VE (bs "Malformed"%bs)])'
 
@@ -184,6 +202,10 @@ def model_term(case):
 def split_model(case, m):
     if case.get('kind') == 'hist' and not isinstance(m[0], bool):
         return all(bool(e[0]) for e in m), [e[1] for e in m]
+    if case.get('kind') in ('loads', 'native'):
+        return len(m) > 2 or isinstance(m[1], dict) and m[1].get('e') != 'Malformed', m      # tie streams of the text layer: always compared
+    if len(m) == 3:
+        return bool(m[0]), ['T', m[1], m[2]]
     return bool(m[0]), m[1]
 
 
@@ -357,8 +379,16 @@ def read_text(text, via='file'):
         os.remove(fn)
 
 
-def roundtrip(b, via='file'):
+class TransportTextDiffers(Exception):
+    """the bytes a file transport wrote are not the bytes tofmtstr('sjson') returns for the same object"""
+
+
+def roundtrip(b, via='file', expect=None):
     text = write_text(b, via)
+    if expect is not None and not isinstance(text, list):
+        t = text if isinstance(text, str) else text.decode('latin-1')
+        if t != expect:
+            raise TransportTextDiffers(via)
     from sugar._io.sjson import COMMENT
     head = '{"_fmtcomment": "' + COMMENT
     got = head if isinstance(text, list) else text if isinstance(text, str) else text.decode('latin-1')
@@ -371,18 +401,27 @@ def impl(case):
         return impl_history(case)
     if case.get('kind') == 'json':
         return impl_json(case)
+    if case.get('kind') == 'loads':
+        return impl_loads(case)
+    if case.get('kind') == 'native':
+        return impl_native(case)
     g = case['b']
     check_shape(g, 'BioBasket')
     assert case.get('via', 'file') in VIAS
-    b = build(g)
+    b, assign = build(g), False
     if _diff(snap(b), expected_snapshot(g)) is not None:
-        b = build(g, assign=True)            # BioSeq.__init__ normalised something: set the public attributes instead
+        b, assign = build(g, assign=True), True          # BioSeq.__init__ normalised something: set the public attributes instead
     d = _diff(snap(b), expected_snapshot(g))
     if d is not None:
         raise ConstructedGraphDiffers(d)
-    b2 = roundtrip(b, case.get('via', 'file'))
+    # the written bytes, compared with the Gallina printer byte for byte: taken from a freshly built object that was never looked at
+    # (reading loc.meta creates the empty Meta of a location lazily, and an existing empty Meta is written as an entry of its own)
+    text = build(g, assign).tofmtstr('sjson')
+    assert isinstance(text, str) and text.isascii(), 'SJSON text is not pure ASCII'
+    expect = b.tofmtstr('sjson')                          # every file transport must carry these bytes
+    b2 = roundtrip(b, case.get('via', 'file'), expect)
     assert _diff(snap(b), expected_snapshot(g)) is None, 'writing changed the object that was written'
-    return snap(b2)
+    return ['T', text, snap(b2)]
 
 
 def agree(case, implval, modelval):
@@ -391,9 +430,26 @@ def agree(case, implval, modelval):
             return any(isinstance(e, dict) for e in modelval)
         return (len(implval) == len(modelval) and
                 all(not isinstance(m, dict) and _diff(canon(i), canon(m)) is None for i, m in zip(implval, modelval)))
+    if case.get('kind') == 'loads':
+        return agree_loads(implval, modelval)
+    if case.get('kind') == 'native':
+        return agree_native(implval, modelval)
+    if _is_t(modelval):
+        if isinstance(implval, dict):
+            return isinstance(modelval[2], dict)
+        return (_is_t(implval) and not isinstance(modelval[2], dict) and implval[1] == modelval[1]        # the bytes
+                and _diff(canon(implval[2]), canon(modelval[2])) is None)
     if isinstance(implval, dict) or isinstance(modelval, dict):
         return isinstance(implval, dict) and isinstance(modelval, dict)      # raises / does not raise
-    return _diff(canon(implval), canon(modelval)) is None                  # value AND JSON type (0 is not False)
+    return _diff(canon(_unt(implval)), canon(modelval)) is None            # value AND JSON type (0 is not False)
+
+
+def _is_t(v):
+    return isinstance(v, list) and len(v) == 3 and v[0] == 'T' and isinstance(v[1], str)
+
+
+def _unt(v):
+    return v[2] if _is_t(v) else v
 
 
 def _diff(a, b, path=''):
@@ -412,6 +468,11 @@ def _diff(a, b, path=''):
 
 def spec(case, got):
     """Property-level oracle: what was read equals what was written, modulo '_'-prefixed keys."""
+    if case.get('kind') == 'loads':
+        return None                  # tie of the text layer model to CPython json; no property clause of its own
+    if case.get('kind') == 'native':
+        return spec_native(case, got)
+    got = _unt(got)
     if case.get('kind') == 'json':
         # no write side: the oracle is only "never raises outside the documented exception classes"
         if isinstance(got, dict) and got['e'] not in DOCUMENTED_ERRORS:
@@ -466,8 +527,11 @@ def _nodes(v):
 
 
 def nontrivial(case, got):
+    got = _unt(got)
     if isinstance(got, dict):
         return None
+    if case.get('kind') in ('loads', 'native'):
+        return [case['kind'], str(got[0]) if isinstance(got, list) and got else 'x', len(json.dumps(case)) // 40]
     if case.get('kind') == 'json':
         return ['json', got['e'] if isinstance(got, dict) else str(got[0]) if isinstance(got, list) and got else 'scalar', bool(case.get('read'))]
     if case.get('kind') == 'hist':
@@ -498,6 +562,10 @@ def nontrivial(case, got):
 
 
 def histkey(case, got):
+    got = _unt(got)
+    if case.get('kind') in ('loads', 'native'):
+        return ['kind=' + case['kind'], case['kind'] + 'result=' + (got['e'] if isinstance(got, dict) else 'ok')] + \
+               (['loadsform=' + case.get('form', '?')] if case.get('kind') == 'loads' else [])
     if case.get('kind') == 'json':
         return ['kind=json', 'jsonread=%s' % bool(case.get('read')), 'jsonresult=' + (got['e'] if isinstance(got, dict) else 'ok')]
     if case.get('kind') == 'hist':
@@ -519,6 +587,10 @@ def histkey(case, got):
 
 def python_snippet(case):
     try:
+        if case.get('kind') == 'loads':
+            return 'import json\nprint(repr(json.loads(%r)))\n' % (case['s'],)
+        if case.get('kind') == 'native':
+            return 'import json\nv = %s\nprint(json.dumps(v)); print(repr(json.loads(json.dumps(v))))\n' % psrc(case['v'])
         if case.get('kind') == 'json':
             py = to_py(case['j'])
             if case.get('read'):
@@ -706,6 +778,10 @@ def gen_cases(rng, tier):
         cases.append(g_history(rng))
     for i in range(500 if tier != 'thorough' else 3000):
         cases.append(g_json_case(rng))
+    for i in range(350 if tier != 'thorough' else 4000):
+        cases.append(g_loads_case(rng))
+    for i in range(250 if tier != 'thorough' else 3000):
+        cases.append(g_native_case(rng))
     return cases
 
 
@@ -1376,6 +1452,321 @@ def g_json_case(rng):
             py = rng.choice(objs)
             top_basket = False
     return {'kind': 'json', 'read': bool(top_basket and rng.random() < 0.5), 'j': from_py(py)}
+
+
+
+# ----------------------------------------------------------------------------- JSON text layer (kinds 'loads' and 'native')
+# loads: {'kind': 'loads', 's': text, 'form': how it was made}: json.loads(text) against the Gallina scanner (tree incl. the kind of every
+#        scalar and the literal of every float, or ValueError on both sides) and, when it parses, json.dumps of the result against the printer.
+# native: {'kind': 'native', 'v': pv}: json.dumps / json.loads of Python values with tuples and keys that are not str, alone and inside
+#        the metadata of a basket written and read by sugar.  pv = None | bool | int | str | ['f', repr] | ['l', v...] | ['t', v...] |
+#        ['d', [key, v]...], key = str | ['ki', int] | ['kb', bool] | ['kn'] | ['kf', repr] | ['ko'] (a tuple key: TypeError)
+def _jhook_pairs(ps):
+    return ['o'] + [[k, v] for k, v in ps]
+
+
+_CONST = {'NaN': 'nan', 'Infinity': 'inf', '-Infinity': '-inf'}
+
+
+def _loads_tree(s):
+    """json.loads with every literal kept: floats as ['f', token], arrays as ['a', ...], objects as ['o', [k, v]...] (duplicates kept)"""
+    def arr(x):
+        if isinstance(x, list) and not (x and x[0] in ('o', 'f') and getattr(x, 'tag', False)):
+            return x
+        return x
+    class L(list):
+        pass
+    def conv(x):
+        if isinstance(x, L):
+            return list(x)
+        if isinstance(x, list):
+            return ['a'] + [conv(y) for y in x]
+        return x
+    def pairs(ps):
+        return L(['o'] + [[k, conv(v)] for k, v in ps])
+    r = json.loads(s, object_pairs_hook=pairs, parse_float=lambda t: L(['f', t]), parse_constant=lambda t: L(['f', _CONST[t]]))
+    return conv(r)
+
+
+def _latin1(x):
+    if isinstance(x, str):
+        return all(ord(c) < 256 for c in x)
+    if isinstance(x, list):
+        return all(_latin1(y) for y in x)
+    return True
+
+
+def _canonical_floats(x):
+    if isinstance(x, list) and x and x[0] == 'f' and len(x) == 2 and isinstance(x[1], str):
+        return repr(float(x[1])) == x[1]
+    if isinstance(x, list):
+        return all(_canonical_floats(y) for y in x[1:])
+    return True
+
+
+def _nodup(x):
+    if isinstance(x, list) and x and x[0] == 'o':
+        ks = [p[0] for p in x[1:]]
+        return len(set(ks)) == len(ks) and all(_nodup(p[1]) for p in x[1:])
+    if isinstance(x, list) and x and x[0] == 'a':
+        return all(_nodup(y) for y in x[1:])
+    return True
+
+
+def impl_loads(case):
+    s = case['s']
+    assert isinstance(s, str)
+    try:
+        tree = _loads_tree(s)
+    except json.JSONDecodeError:
+        raise ValueError('JSONDecodeError')
+    re = None
+    if _canonical_floats(tree) and _nodup(tree):
+        re = json.dumps(json.loads(s))                 # the printer on the scanned tree
+    return ['L', tree, re]
+
+
+def agree_loads(i, m):
+    if isinstance(i, dict):
+        return isinstance(m[1], dict) and i['e'] == 'ValueError'
+    if not _latin1(i[1]):
+        return True                                    # \uXXXX beyond Latin-1: outside Text.str (the Gallina scanner answers None)
+    if isinstance(m[1], dict):
+        return False
+    return _diff(i[1], m[1]) is None and (i[2] is None or i[2] == m[2])
+
+
+def check_pshape(v):
+    if v is None or isinstance(v, (bool, int, str)):
+        return
+    assert isinstance(v, list) and v and v[0] in ('f', 'l', 't', 'd')
+    if v[0] == 'f':
+        assert len(v) == 2 and isinstance(v[1], str)
+        float(v[1])
+    elif v[0] in ('l', 't'):
+        for x in v[1:]:
+            check_pshape(x)
+    else:
+        for p in v[1:]:
+            assert isinstance(p, list) and len(p) == 2
+            k = p[0]
+            assert isinstance(k, str) or (isinstance(k, list) and k and k[0] in ('ki', 'kb', 'kn', 'kf', 'ko'))
+            if isinstance(k, list) and k[0] == 'ki':
+                assert type(k[1]) is int
+            if isinstance(k, list) and k[0] == 'kb':
+                assert type(k[1]) is bool
+            if isinstance(k, list) and k[0] == 'kf':
+                float(k[1])
+            check_pshape(p[1])
+
+
+def _kterm(k):
+    if isinstance(k, str):
+        return '(KStr %s)' % coq_bs(k)
+    if k[0] == 'ki':
+        return '(KInt %s)' % coq_z(k[1])
+    if k[0] == 'kb':
+        return '(KBool %s)' % ('true' if k[1] else 'false')
+    if k[0] == 'kn':
+        return 'KNone'
+    if k[0] == 'kf':
+        return '(KFloat %s)' % coq_bs(k[1])
+    return 'KOther'
+
+
+def pterm(v):
+    if v is None:
+        return 'PNone'
+    if isinstance(v, bool):
+        return '(PBool %s)' % ('true' if v else 'false')
+    if isinstance(v, int):
+        return '(PInt %s)' % coq_z(v)
+    if isinstance(v, str):
+        return '(PStr %s)' % coq_bs(v)
+    if v[0] == 'f':
+        return '(PFloat %s)' % coq_bs(v[1])
+    if v[0] in ('l', 't'):
+        return '(%s [%s])' % ('PList' if v[0] == 'l' else 'PTuple', '; '.join(pterm(x) for x in v[1:]))
+    return '(PDict [%s])' % '; '.join('(%s, %s)' % (_kterm(k), pterm(x)) for k, x in v[1:])
+
+
+def psrc(v):
+    if v is None or isinstance(v, (bool, int, str)):
+        return repr(v)
+    if v[0] == 'f':
+        return 'float(%r)' % v[1]
+    if v[0] == 'l':
+        return '[' + ', '.join(psrc(x) for x in v[1:]) + ']'
+    if v[0] == 't':
+        return '(' + ''.join(psrc(x) + ', ' for x in v[1:]) + ')'
+    def ks(k):
+        if isinstance(k, str):
+            return repr(k)
+        return {'ki': lambda: repr(k[1]), 'kb': lambda: repr(k[1]), 'kn': lambda: 'None', 'kf': lambda: 'float(%r)' % k[1],
+                'ko': lambda: '(1, 2)'}[k[0]]()
+    return '{' + ', '.join('%s: %s' % (ks(k), psrc(x)) for k, x in v[1:]) + '}'
+
+
+def _psnap(o):
+    """what came back, in the encoding of show_pyv (keys as they are: str stays str)"""
+    ty = type(o)
+    if o is None or ty is bool or ty is int or ty is str:
+        return o
+    if ty is float:
+        return ['f', repr(o)]
+    if ty is list:
+        return ['l'] + [_psnap(x) for x in o]
+    if ty is tuple:
+        return ['t'] + [_psnap(x) for x in o]
+    if ty is dict:
+        return ['d'] + [[_psnap(k), _psnap(x)] for k, x in o.items()]
+    return ['?', ty.__name__]
+
+
+def _pkeys_unique_after(v):
+    """no two keys of one dict collide after json's coercion (then dict semantics and the pair list agree)"""
+    if isinstance(v, list) and v and v[0] == 'd':
+        def kt(k):
+            if isinstance(k, str):
+                return k
+            return {'ki': lambda: repr(k[1]), 'kb': lambda: 'true' if k[1] else 'false', 'kn': lambda: 'null',
+                    'kf': lambda: json.dumps(float(k[1])), 'ko': lambda: '?'}[k[0]]()
+        ks = [kt(p[0]) for p in v[1:]]
+        return len(set(ks)) == len(ks) and all(_pkeys_unique_after(p[1]) for p in v[1:])
+    if isinstance(v, list) and v and v[0] in ('l', 't'):
+        return all(_pkeys_unique_after(x) for x in v[1:])
+    return True
+
+
+def impl_native(case):
+    check_pshape(case['v'])
+    v = eval(psrc(case['v']), {})
+    text = json.dumps(v)
+    back = json.loads(text)
+    # the same value inside the metadata of a basket, through sugar's writer and reader (inside a list: stays a plain dict)
+    from sugar import BioBasket
+    b2 = BioBasket.fromfmtstr(BioBasket([], meta={'x': [v]}).tofmtstr('sjson'))
+    via_sugar = _psnap(b2.meta['x'][0])
+    assert via_sugar == _psnap(back), 'sugar.read returns %r for metadata that json alone returns as %r' % (via_sugar, _psnap(back))
+    return ['N', text, _psnap(back)]
+
+
+def agree_native(i, m):
+    if isinstance(i, dict):
+        return isinstance(m[1], dict) and i['e'] == m[1]['e']
+    if isinstance(m[1], dict):
+        return False
+    return i[1] == m[1] and _diff(i[2], m[2]) is None
+
+
+def _p_is_json(v):
+    if isinstance(v, list) and v:
+        if v[0] == 't':
+            return False
+        if v[0] == 'l':
+            return all(_p_is_json(x) for x in v[1:])
+        if v[0] == 'd':
+            return all(isinstance(k, str) and _p_is_json(x) for k, x in v[1:])
+    return True
+
+
+def spec_native(case, got):
+    """first principles: what comes back equals what was written exactly when there is no tuple and every key is a str"""
+    v = case['v']
+    if isinstance(got, dict):
+        return None if got['e'] == 'TypeError' and 'ko' in json.dumps(v) else 'json.dumps raised %s' % got['e']
+    same = _diff(got[2], v) is None
+    if _p_is_json(v) and not same:
+        return 'a JSON value did not survive json.dumps/json.loads: ' + str(_diff(got[2], v))[:200]
+    if not _p_is_json(v) and same:
+        return 'a value with a tuple or a non-str key came back unchanged'
+    return None
+
+
+PSTRS = STRS + ['\x08\x0c\r', '\\u00e9', 'a/b', '\x7f', '\xa0\xad', '"', '\\']
+
+
+def g_pv(rng, depth, native=False):
+    r = rng.random()
+    if depth <= 0 or r < 0.5:
+        c = rng.randrange(6)
+        if c == 0:
+            return None
+        if c == 1:
+            return rng.random() < 0.5
+        if c == 2:
+            return rng.choice(INTS + [10 ** 400, -10 ** 40]) if rng.random() < 0.6 else rng.randint(-10 ** 6, 10 ** 6)
+        if c == 3:
+            return ['f', rng.choice(FLOATS) if rng.random() < 0.7 else repr(rng.uniform(-1e6, 1e6) * 10.0 ** rng.randint(-30, 30))]
+        return rng.choice(PSTRS) if rng.random() < 0.6 else ''.join(chr(rng.choice([rng.randint(32, 126), rng.randint(0, 255)])) for _ in range(rng.randint(0, 10)))
+    if r < 0.72:
+        return [('t' if native and rng.random() < 0.4 else 'l')] + [g_pv(rng, depth - 1, native) for _ in range(rng.choice([0, 1, 2, 3]))]
+    ps, seen = [], set()
+    for _ in range(rng.choice([0, 1, 2, 3])):
+        k = rng.choice(['a', 'b', '', 'k"', '1', 'true', 'null', 'caf\xe9', 'x y', '1.5'])
+        if native and rng.random() < 0.45:
+            k = rng.choice([['ki', rng.choice([0, 1, -3, 2 ** 70])], ['kb', rng.random() < 0.5], ['kn'], ['kf', rng.choice(['1.5', '0.0', '-0.0', 'nan', 'inf', '1e+16'])]] +
+                           ([['ko']] if rng.random() < 0.1 else []))
+        kk = json.dumps(k)
+        if kk in seen or k == '_cls':
+            continue
+        seen.add(kk)
+        ps.append([k, g_pv(rng, depth - 1, native)])
+    return ['d'] + ps
+
+
+def g_native_case(rng):
+    while True:
+        v = g_pv(rng, rng.choice([1, 2, 3, 4]), native=rng.random() < 0.8)
+        if _pkeys_unique_after(v) and (1 == 1.0):
+            # Python dict: True == 1 == 1.0 are one key; keep the keys of one dict distinct as Python keys
+            try:
+                if _psnap(eval(psrc(v), {})) == v or 'nan' in json.dumps(v):
+                    return {'kind': 'native', 'v': v}
+            except Exception:
+                pass
+
+
+def _pv_json(v):
+    """pv without tuples / non-str keys -> python value"""
+    return eval(psrc(v), {})
+
+
+def g_loads_case(rng):
+    v = _pv_json(g_pv(rng, rng.choice([0, 1, 2, 3, 4])))
+    form = rng.choice(['default', 'default', 'compact', 'indent', 'raw', 'padded', 'mutated', 'mutated', 'mutated', 'handwritten'])
+    if form == 'compact':
+        s = json.dumps(v, separators=(',', ':'))
+    elif form == 'indent':
+        s = json.dumps(v, indent=rng.choice([0, 1, 2, '\t']))
+    elif form == 'raw':
+        s = json.dumps(v, ensure_ascii=False)
+    elif form == 'padded':
+        s = rng.choice(['', ' ', '\n\t ']) + json.dumps(v).replace(', ', rng.choice([' ,', ',\r\n', ' , '])).replace(': ', rng.choice([':', ' :\t'])) + rng.choice(['', ' ', '\n'])
+    elif form == 'handwritten':
+        s = rng.choice(['[1.0, 1, true, "1", null]', '[-0, -0.0, 0e5, 1E5, 1e+5, 1.5e-3, 12E-2]', '["\\u00e9\\u00E9\\/\\b\\f\\n\\r\\t\\"\\\\"]', '[01]', '[1.]', '[.5]', '[+1]', '[-]',
+                        '[1 2]', '[1,]', '[,1]', '{"a":1,}', '{"a" 1}', '{a: 1}', "{'a': 1}", '[NaN, Infinity, -Infinity]', '[nan]', '[-infinity]', '[Infinit]', 'nul', 'tru', '',
+                        ' ', '[', '{', '"', '"abc', '"\\', '"\\u12"', '"\\x41"', '"\ttab"', '"\x1f"', '"\x7f\x80\xff"', '1 2', '[] []', '{"a": 1, "a": 2, "b": {"a": 3, "a": []}}',
+                        '{"": {"": {"": [[[[]]]]}}}', '[1e400, -1e400, 1e-400]', '123456789012345678901234567890', '-', '--1', '1-2', '1e', '1e+', '0x10', '1_0', '[true,false,null]',
+                        '[truefalse]', '"\\u0041\\u00ff"', '{"k":"v"}x', '﻿[]'.encode('utf-8').decode('latin-1'), '[1,2', '{"a":[}', '[\x0b1]', '[\x0c]', '"\\/"', '1.0e+00'])
+    else:
+        s = json.dumps(v)
+    if form == 'mutated':
+        s = list(s)
+        for _ in range(rng.choice([1, 1, 2, 3])):
+            if not s:
+                break
+            i = rng.randrange(len(s))
+            c = rng.randrange(3)
+            ch = rng.choice('[]{},:"\\ntfu01-+.eE \t/9aN')
+            if c == 0:
+                del s[i]
+            elif c == 1:
+                s.insert(i, ch)
+            else:
+                s[i] = ch
+        s = ''.join(s)
+    return {'kind': 'loads', 'form': form, 's': s}
 
 
 # ----------------------------------------------------------------------------- relational checks without the model
